@@ -23,7 +23,7 @@ def gen_key(rng, nan_p=0.15):
 
 def gen_case(rng, tier):
     pareto = rng.random() < 0.4
-    cap = None if pareto else rng.randint(1, 6)
+    cap = None if pareto else rng.choice([0, 1, 1, 2, 3, 4, 5, 6])
     sim = rng.choice([0, 0, 0, 2, 3])
     only_updates = rng.random() < 0.6
     nops = rng.randint(0, 12 if tier == "quick" else 25)
@@ -36,7 +36,7 @@ def gen_case(rng, tier):
                    for _ in range(rng.randint(0, 7))]
             ops.append(["U", pop])
         elif r < 0.75:
-            ops.append(["I", [rng.randrange(nobj), gen_key(rng, 0.0), gen_key(rng, 0.1)]])   # op_ok: no NaN primary key
+            ops.append(["I", [rng.randrange(nobj), gen_key(rng, 0.15), gen_key(rng, 0.1)]])   # NaN primary keys included
         elif r < 0.93:
             ops.append(["R", rng.randint(-8, 8) if rng.random() < 0.15 else rng.randint(-3, 2)])
         else:
@@ -275,7 +275,7 @@ def check(rep, proof):
     rep.assumptions += [
         "non-NaN float keys are modelled by an order embedding into Z (test keys are small integers and +-inf)",
         "deepcopy is modelled as allocation of a fresh object id carrying the keys read at copy time",
-        "HallOfFame.insert is never handed a NaN key and max_size >= 1 (otherwise findings F12a/F12b)",
+        "manual inserts with NaN keys and capacity 0 are part of the histories (findings F12a/F12b, fixed)",
     ]
     if oracle_bad:
         i, v = oracle_bad[0]
